@@ -434,6 +434,11 @@ CORPUS = [
     # occurrences overlapping a failed partial match (fixed in /repo 542d9d0)
     (["a b = 3", "a a b", "foo a b", "a a b a b", "a b c = 5", "a b a b c", "a a b a b c * 2", "a a a b"], None),
     (["my var = 4", "my my var", "my my my var + 1", "2 * my MY Var"], None),
+    # re-assignment under another letter case must hit the same variable
+    (["Total = 1", "total = 2", "total + 1", "TOTAL"], None),
+    (["Rate = 5", "rate = Rate * 2", "rate", "RATE + Rate"], None),
+    (["My Rent = 100", "my rent = 200", "My Rent * 2", "MY RENT = my rent + 1", "my Rent"], None),
+    (["zeta = 1", "Zeta = 2", "ZETA = 3", "zeta + Zeta + ZETA"], None),
 ]
 
 
